@@ -22,25 +22,31 @@ LONG_MAX = 2**63 - 1
 
 
 def vf(view, d, w, cond):
-    return CChild(z3.If(cond, core.vfill(view, d, w), view))
-
-
-def flow(st, r, a, name, d, w, cond):
-    return content_eq(st, r[name], vf(a[name].view, d, w, cond), "fill." + name)
+    if z3.is_app(view) and view.decl().kind() == z3.Z3_OP_ITE:
+        c, x, y = view.children()
+        return CIte(c, vf(x, d, w, cond), vf(y, d, w, cond))
+    return CIte(cond, CChild(core.vfill(view, d, w)), CChild(view))
 
 
 def fill_post(st, K, a, r, d, w, q):
+    want = fill_want(st, K, a, d, w, q)
+    return z3.And([content_eq(st, r[f], c, "fill." + f) for f, c in want.items()] or [z3.BoolVal(True)])
+
+
+def fill_want(st, K, a, d, w, q):
+    """expected child-holding fields of the view after one datum of finite weight w > 0 (a function of
+    the pre-view: used both as postcondition of fill and in the homomorphism law L-hom)"""
     wr = w.r
-    gs = []
+    out = {}
     notnan = z3.Not(q.nan)
     if "nanflow" in a:
-        gs.append(flow(st, r, a, "nanflow", d, wr, q.nan))
+        out["nanflow"] = vf(a["nanflow"].view, d, wr, q.nan)
     if K == "Bin":
         low, high = a["low"].fl, a["high"].fl
         vals = a["values"]
         n = vals.length
-        gs.append(flow(st, r, a, "underflow", d, wr, z3.And(notnan, q.lt(low))))
-        gs.append(flow(st, r, a, "overflow", d, wr, z3.And(notnan, q.ge(high))))
+        out["underflow"] = vf(a["underflow"].view, d, wr, z3.And(notnan, q.lt(low)))
+        out["overflow"] = vf(a["overflow"].view, d, wr, z3.And(notnan, q.ge(high)))
         inrange = z3.And(q.isfin(), q.r >= low.r, q.r < high.r)
         delta = st.fresh("binwidth", z3.RealSort())
         st.add(delta * z3.ToReal(n) == high.r - low.r, delta > 0)
@@ -48,8 +54,7 @@ def fill_post(st, K, a, r, d, w, q):
         def sel(i):
             return z3.And(inrange, low.r + z3.ToReal(i) * delta <= q.r, q.r < low.r + (z3.ToReal(i) + 1) * delta)
 
-        want = CFam(vals.ksort, vals.dom, lambda i: vf(vals.val(i).view, d, wr, sel(i)), n, vals.pytype)
-        gs.append(content_eq(st, r["values"], want, "fill.values"))
+        out["values"] = CFam(vals.ksort, vals.dom, lambda i: vf(vals.val(i).view, d, wr, sel(i)), n, vals.pytype)
     elif K in ("CentrallyBin", "IrregularlyBin", "Stack"):
         bins = a["bins"]
         n = bins.length
@@ -75,14 +80,13 @@ def fill_post(st, K, a, r, d, w, q):
             def sel(i):
                 return z3.And(notnan, q.ge(c(i)))
 
-        want = CFam(
+        out["bins"] = CFam(
             bins.ksort,
             bins.dom,
             lambda i: CTuple([bins.val(i).items[0], vf(bins.val(i).items[1].view, d, wr, sel(i))]),
             n,
             bins.pytype,
         )
-        gs.append(content_eq(st, r["bins"], want, "fill.bins"))
     elif K == "SparselyBin":
         bins = a["bins"]
         bw, org = a["binWidth"].fl.r, a["origin"].fl.r
@@ -97,7 +101,7 @@ def fill_post(st, K, a, r, d, w, q):
             lo = z3.And(i == -M, z3.Or(q.ninf, z3.And(q.isfin(), q.r < org + (ir + 1) * bw)))
             return z3.And(core.Key.is_KInt(k), notnan, z3.Or(mid, hi, lo))
 
-        gs.append(sparse_goal(st, a, r, d, wr, sel, tmpl))
+        out["bins"] = sparse_want(st, a, d, wr, sel, tmpl)
     elif K == "Categorize":
         bins = a["bins"]
         tmpl = a.get("__template__")
@@ -113,13 +117,13 @@ def fill_post(st, K, a, r, d, w, q):
         def sel(k):
             return k == key
 
-        gs.append(sparse_goal(st, a, r, d, wr, sel, tmpl))
+        out["bins"] = sparse_want(st, a, d, wr, sel, tmpl)
     else:
         raise core.Unsupported(f"fill spec for {K}")
-    return z3.And(gs)
+    return out
 
 
-def sparse_goal(st, a, r, d, wr, sel, tmpl):
+def sparse_want(st, a, d, wr, sel, tmpl):
     """bins' = bins with the selected key present and filled; a new bin starts as the empty template."""
     bins = a["bins"]
     empty = core.vzero(tmpl) if tmpl is not None else None
@@ -127,13 +131,12 @@ def sparse_goal(st, a, r, d, wr, sel, tmpl):
     def val(k):
         base = bins.val(k)
         if empty is not None:
-            basev = z3.If(bins.dom(k), view_of_comp(base), empty)
+            comp = CIte(bins.dom(k), base, CChild(empty))
         else:
-            basev = view_of_comp(base)
-        return CChild(z3.If(sel(k), core.vfill(basev, d, wr), basev))
+            comp = base
+        return specs.lift(lambda c: CIte(sel(k), CChild(core.vfill(c.view, d, wr)), c))(comp)
 
-    want = CFam(bins.ksort, lambda k: z3.Or(bins.dom(k), sel(k)), val, None, bins.pytype)
-    return content_eq(st, r["bins"], want, "fill.bins")
+    return CFam(bins.ksort, lambda k: z3.Or(bins.dom(k), sel(k)), val, None, bins.pytype)
 
 
 def view_of_comp(c):
